@@ -35,6 +35,15 @@ def slices_body(env, p):
     b1, b2, v = env_pixels(env, n, K)
     path = scratch_file("c14.cool")
     env.build_cooler(path, bins, b1, b2, {"count": v})
+    if p.get("int_enc"):
+        # integer chromosome encoding: bins/chrom stored as plain ids with a pointer to the name table (what create writes when
+        # there are too many scaffolds for an HDF5 enum header)
+        f = env.h5.File(path, "r+")
+        codes = f["bins/chrom"][:]
+        del f["bins/chrom"]
+        d = f["bins"].create_dataset("chrom", data=env.array([int(c) for c in codes], "int32"))
+        d.attrs["enum_path"] = "/chroms/name"
+        f.close()
     clr = env.cooler.Cooler(path)
     starts, ends, chrom = [], [], []
     for ci, ws in enumerate(widths):
@@ -54,6 +63,12 @@ def slices_body(env, p):
     else:
         sel, N = clr.chroms(), len(layout)
         cols = {"length": lens}
+    single = p.get("single")
+    if single:
+        # one column picked by name: the selector yields a Series, same rows, same labels
+        sel = sel[single]
+        names = list(clr.chromnames)
+        cols = {single: chrom if single == "chrom" else cols[single]}
     if p["subset"]:
         keep = list(cols)[:1]
         sel = sel[keep]
@@ -91,12 +106,14 @@ def slices_body(env, p):
     conds = [lab == lo + t for t, lab in enumerate(idx)]
     for name, ref in cols.items():
         got = vals(out[name]) if hasattr(out, "columns") else vals(out)
+        if name == "chrom":
+            got = [names.index(x) if isinstance(x, str) else x for x in got]   # names back to ids for the comparison
         for t in range(nrows):
             conds.append(got[t] == (_sel(ref, lo + t) if isinstance(lo + t, SInt) else ref[int(lo + t)]))
     if p["subset"] and hasattr(out, "columns"):
         env.check(list(out.columns) == list(cols), "column selection returned other columns")
     env.check(and_(*conds), "rows / labels returned are not the stored rows of the index range")
-    return dict(index=idx, **{k: (vals(out[k]) if hasattr(out, "columns") else vals(out)) for k in cols})
+    return dict(index=idx, **{k: ([str(x) for x in vals(out)] if k == "chrom" else vals(out[k]) if hasattr(out, "columns") else vals(out)) for k in cols})
 
 
 slices_sym, slices_real = both(slices_body)
@@ -114,6 +131,9 @@ def _slice_cases(tier):
                     out.append(dict(layout=[2, 1], K=3, table=table, subset=subset, scalar=False, a_none=an, b_none=bn))
     if tier != "quick":
         out += [dict(c, layout=[2, 2], K=4) for c in out if c["table"] != "chroms"]
+    # one column picked by name (Series output), enum and integer chromosome encodings
+    for single, int_enc in (("chrom", False), ("chrom", True), ("start", True)):
+        out.append(dict(layout=[2, 1], K=1, table="bins", subset=False, scalar=False, a_none=False, b_none=False, single=single, int_enc=int_enc))
     return out
 
 
@@ -139,8 +159,16 @@ def annotate_body(env, p):
     b2 = [env.int(f"p2_{q}", 0, n - 1) for q in range(K)]
     v = [env.int(f"pv{q}", 1, 9) for q in range(K)]
     labels = [10 + 3 * q for q in range(K)]
-    pix = env.pd.DataFrame({"bin1_id": env.array(b1, "int64"), "bin2_id": env.array(b2, "int64"), "count": env.array(v, "int32")},
-                           index=np.array(labels))
+    if p.get("iloc"):
+        # a positional subset of a default-indexed frame: pandas keeps a RangeIndex (reversed / not starting at 0) on it
+        pix = env.pd.DataFrame({"bin1_id": env.array(b1, "int64"), "bin2_id": env.array(b2, "int64"), "count": env.array(v, "int32")})
+        sl = {"rev": slice(None, None, -1), "tail": slice(1, None), "even": slice(None, None, 2)}[p["iloc"]]
+        pix = pix.iloc[sl]
+        b1, b2, v, labels = b1[sl], b2[sl], v[sl], list(range(K))[sl]
+        K = len(labels)
+    else:
+        pix = env.pd.DataFrame({"bin1_id": env.array(b1, "int64"), "bin2_id": env.array(b2, "int64"), "count": env.array(v, "int32")},
+                               index=np.array(labels))
     if p.get("only_bin2"):
         pix = pix[["bin2_id", "count"]]
     enum = p["enum"]
@@ -203,6 +231,8 @@ def _ann_cases(tier):
                         continue
                     out.append(dict(layout=layout, K=K, form=form, enum=enum, replace=replace))
     out.append(dict(layout=[2, 1], K=2, form="partial", enum=True, replace=False, only_bin2=True))
+    for how in ("rev", "tail", "even"):
+        out.append(dict(layout=[2, 1], K=3, form="frame", enum=True, replace=False, iloc=how))
     return out
 
 
